@@ -282,6 +282,25 @@ class C16(Check):
                     if after[key] != before[i][key]:
                         res.fail(f"C16/input-modified/merge/{cls}/{key}",
                                  f"input {i} {key}: before {str(before[i][key])[:300]} after {str(after[key])[:300]}")
+            # ------------------------------------------------------------------ the merged object as stored
+            if not res.fails:
+                live = snapshot(merged, cls)
+                merged_uid = merged.uid
+                out_path = out_ws.h5file
+                del merged
+                out_ws.close()
+                fresh_ws = Workspace(out_path, mode="r")
+                try:
+                    again = fresh_ws.get_entity(merged_uid)[0]
+                    stored = snapshot(again, cls) if again is not None else {}
+                    for key in live:
+                        if stored.get(key) != live[key]:
+                            res.fail(f"C16/merged-differs-after-reopen/merge/{cls}/{key}",
+                                     f"{key}: live {str(live[key])[:300]} re-opened {str(stored.get(key))[:300]}")
+                            break
+                    del again
+                finally:
+                    fresh_ws.close()
             if any(trailing):
                 res.label("trailing-unreferenced-vertices")
             if any(trailing[:-1]):
